@@ -447,11 +447,7 @@ theorem tail_plainW {t : Tracker} {force : Bool} {e : Nat} (h : WInv t force e) 
       t2.lastFieldWasBitfield = t.lastFieldWasBitfield ∧
       (padList pad).any (fun f => f.blob == some .panic) = false ∧ uo pre = [] ∧
       placeFields none e ma (padList pad) = (pre, c', ma) ∧ (c' = e ∨ c' = l.size) := by
-  have hu : t.tailPaddingUnderflows l = false := by
-    unfold Tracker.tailPaddingUnderflows
-    rw [h.off]
-    simp only [Bool.and_eq_false_iff, decide_eq_false_iff_not]
-    right; omega
+  have hu : t.tailPaddingUnderflows l = false := rfl
   unfold Tracker.addTailPadding
   rw [h.fp, h.nru, h.nfa, h.off]
   cases force with
@@ -466,7 +462,7 @@ theorem tail_plainW {t : Tracker} {force : Bool} {e : Nat} (h : WInv t force e) 
       simp only at h1 h2
       refine ⟨{ t with paddingCount := t.paddingCount + 1, maxFieldAlign := max t.maxFieldAlign 0 },
         some { idx := t.paddingCount, layout := { size := l.size - e, align := 0 } },
-        [(.padding t.paddingCount, e)], l.size, by simp [he, Tracker.paddingField], hu, h.setCount _ _,
+        [(.padding t.paddingCount, e)], l.size, by (have hlt : ¬ e ≥ l.size := by omega); simp [hlt, Tracker.paddingField], hu, h.setCount _ _,
         by simp, rfl, ?_, rfl, ?_, Or.inr rfl⟩
       · simpa [padList, padField, blobField, hb] using h3
       · simp only [padList, padField, blobField, hb, placeFields_cons, placeFields_nil, h1, h2,
